@@ -59,7 +59,7 @@ var propSpecs = map[string]PropSpec{
 		Prop: "C01", Relabel: map[string]string{"C02:bystander-changed": "C01:earlier-object-changed",
 			"C08:reload-fails": "C01:reload-fails", "C08:handle-vs-reload": "C01:reload-differs"},
 		Corr: "corr.C01.create_add_readback (model bytes and view vs library, every create/add)"},
-	"C02": {Profile: Profile{MaxCap: 6, MaxOps: 28, Backends: []string{"buf"}, Rejects: 220, DetBias: 350, FailReaders: true, Foreign: 250},
+	"C02": {Profile: Profile{MaxCap: 6, MaxOps: 28, Backends: []string{"buf"}, Rejects: 220, DetBias: 350, FailReaders: true, Foreign: 250, Faults: true},
 		Kinds: kinds("res", "hdr", "obj", "shape"), Cases: [2]int{600, 10000}, Oracles: []string{"C02", "C01"},
 		Prop: "C02", Relabel: map[string]string{"C01:content": "C02:added-object-differs", "C01:attributes": "C02:added-object-differs",
 			"C01:name": "C02:added-object-differs", "C01:metadata": "C02:added-object-differs", "C01:count": "C02:added-object-differs",
@@ -186,7 +186,7 @@ func runHistory(dir string, seed uint64, spec PropSpec, shipped string) (*Case, 
 		c.record(idx, op, obs)
 		i := idx
 		idx++
-		if preBytes != nil && e.f != nil && len(obs) > 0 {
+		if preBytes != nil && e.f != nil && len(obs) > 0 && op.Fault == "" && !wasApart && !st.storeFailed {
 			for _, o := range spec.Oracles {
 				if (o == "C02" || o == "C08") && (spec.Prop == o || spec.Prop == "") {
 					if v := oracleAddSlot(e, preBytes, o, i, op, obs[0]); v != nil {
@@ -209,6 +209,13 @@ func runHistory(dir string, seed uint64, spec PropSpec, shipped string) (*Case, 
 			switch {
 			case o == "C01" && (op.Kind == "add" || op.Kind == "create"):
 				v = oracleC01(e, i, op, res, before)
+			case o == "C02" && (op.Fault != "" || e.desync || wasApart || st.storeFailed):
+				// a store failure is outside the reference model (hypothesis of C02_refine) and what it
+				// leaves behind stays: e.g. a set-primary that failed between its table write and its
+				// header write keeps the old header architecture for good.  From here on this history
+				// is compared with the Lean model only (which follows the failure: Model/Fault.lean)
+				st.storeFailed = true
+				st.havePrev = false
 			case o == "C02" && (isMutator(op.Kind) || op.Kind == "create" || op.Kind == "reload" || op.Kind == "load"):
 				v = oracleC02(e, st, i, op, res)
 			case o == "C03" && (op.Fault != "" || e.desync || wasApart) && isMutator(op.Kind):
